@@ -12,6 +12,7 @@ mod container;
 mod queue;
 mod collection;
 mod reader;
+mod range;
 mod segmentation;
 mod splitters;
 mod archive;
@@ -19,6 +20,7 @@ mod lex;
 mod gen;
 mod pipeline;
 mod fasta;
+mod present;
 mod cli;
 mod profiles;
 
@@ -40,6 +42,7 @@ fn main() {
         queue::dispatch,
         collection::dispatch,
         reader::dispatch,
+        range::dispatch,
         segmentation::dispatch,
         splitters::dispatch,
         archive::dispatch,
@@ -47,6 +50,7 @@ fn main() {
         gen::dispatch,
         pipeline::dispatch,
         fasta::dispatch,
+        present::dispatch,
         cli::dispatch,
         profiles::dispatch,
     ];
